@@ -5,7 +5,36 @@ surrounding code no longer has a form the model of coq/lib/Eventual.v / Promise.
 express.  A fact that *can* be expressed either way (append at tail or head, forward or
 reversed iteration, try/except present or not, `_break` assigns or compares, ...) is
 emitted as an enumerated value, so that an edit changes coq/gen/EventualGen.v and the
-proofs are re-checked against the changed model."""
+proofs are re-checked against the changed model.
+
+FORMS ACCEPTED BY MEANING (each is equivalent to the form the queries were written for, for all inputs, with no
+assumption about the types of the values involved):
+
+ (E1) A function of eventual.py / promise.py / observer.py that differs from the reference tree (translate/ref_src)
+      is replaced by its reference text when, after the step below, the canonical forms of translate/normalize.py
+      coincide (renamed locals, else-nesting, tail returns, ... : see normalize.py C1..C10).  The extra step
+      ("temporaries with a pure prefix"):   `x = E` immediately followed by a statement S (expression statement,
+      return, single-target assignment, or the test of an if) is rewritten to S[x := E] when x is a local that is
+      stored exactly once and loaded exactly once in the whole function, the function has no nested def / lambda /
+      comprehension / global / nonlocal / del of a name, and everything S evaluates BEFORE it reaches x is a load of
+      a PARAMETER of the function (never assigned or deleted in it) or a constant.
+      Argument: Python evaluates S left to right; the loads in front of x are loads of fast locals that are
+      certainly bound (parameters), which cannot raise, have no side effect and whose value cannot be changed by
+      evaluating E (no nested scope can rebind them).  So evaluating E first and those loads afterwards yields the
+      same values, the same side effects in the same order and the same exceptions.  x is dead afterwards (no other
+      load), so dropping the binding is unobservable.  Example: `forwarded = target._send(..); resolver(forwarded)`
+      == `resolver(target._send(..))`;  `d = when(t); d.addBoth(f)` == `when(t).addBoth(f)`.
+ (E2) A state test `self._state in NAME` is read as `self._state in (A, B, ...)` when NAME is a module-level name of
+      promise.py that is bound exactly once in the whole module, by a top-level assignment `NAME = (A, B, ...)` /
+      `[A, B, ...]` whose elements are the state constants (themselves bound once, at top level, before NAME), is
+      never the target of global / del / augmented assignment, and is not a parameter or local of the function that
+      uses it.  Argument: the global then denotes, at every call, a tuple/list with exactly the elements the literal
+      would be built from (the constants are never rebound either), and `in` on a tuple or list compares with the
+      elements left to right in both cases.
+ (E3) The guard of `_break` that delivers the queued messages is recognised as "an if statement without else whose
+      test is a state test over exactly {EVENTUAL, CHAINED} (directly or via E2) and whose body is the single
+      statement self._deliver_queued_messages()", instead of by its text.
+Everything else still fails closed (Untranslatable)."""
 import ast
 from translate import pylite as P
 
@@ -18,6 +47,156 @@ U = P.Untranslatable
 def S(src):
     """normal form of a statement's source text (the same the unparser prints for the node)"""
     return ast.unparse(ast.parse(src))
+
+
+# ------------------------------------------------------------------------------------------------ (E1)
+import copy
+
+
+def _pure_prefix_forward(fn):
+    """apply the rewriting of (E1) to a deep copy of fn; returns the copy (unchanged when a side condition fails)"""
+    f = copy.deepcopy(fn)
+    for n in ast.walk(f):
+        if n is not f and isinstance(n, (ast.FunctionDef, ast.AsyncFunctionDef, ast.Lambda, ast.ListComp, ast.SetComp,
+                                         ast.DictComp, ast.GeneratorExp, ast.Global, ast.Nonlocal, ast.ClassDef)):
+            return f
+        if isinstance(n, ast.Delete) and any(isinstance(t, ast.Name) for t in n.targets):
+            return f
+    params = {a.arg for a in f.args.args + f.args.kwonlyargs + f.args.posonlyargs}
+    loads, stores = {}, {}
+    for n in ast.walk(f):
+        if isinstance(n, ast.Name):
+            d = loads if isinstance(n.ctx, ast.Load) else stores
+            d[n.id] = d.get(n.id, 0) + 1
+    safe_params = {p for p in params if stores.get(p, 0) == 0}
+
+    def reach(e, x):
+        """evaluation-order walk: 'found' x is reached with only pure loads before it; 'pure' no x, nothing but
+        parameter loads / constants; 'impure' something else is evaluated first"""
+        if isinstance(e, ast.Name):
+            if e.id == x and isinstance(e.ctx, ast.Load):
+                return "found"
+            return "pure" if e.id in safe_params else "impure"
+        if isinstance(e, ast.Constant):
+            return "pure"
+        if isinstance(e, ast.Attribute):
+            r = reach(e.value, x)
+            return "found" if r == "found" else "impure"
+        if isinstance(e, ast.Call):
+            for sub in [e.func] + list(e.args) + [k.value for k in e.keywords]:
+                if isinstance(sub, ast.Starred):
+                    sub = sub.value
+                r = reach(sub, x)
+                if r != "pure":
+                    return r
+            return "impure"
+        return "impure"
+
+    def head(st):
+        if isinstance(st, (ast.Expr, ast.Return)) and st.value is not None:
+            return st, "value"
+        if isinstance(st, ast.Assign) and len(st.targets) == 1 and isinstance(st.targets[0], ast.Name):
+            return st, "value"
+        if isinstance(st, ast.If):
+            return st, "test"
+        return None, None
+
+    class Put(ast.NodeTransformer):
+        def __init__(self, t, e):
+            self.t, self.e = t, e
+
+        def visit_Name(self, n):
+            return self.e if (n.id == self.t and isinstance(n.ctx, ast.Load)) else n
+
+    def fw(stmts):
+        out = []
+        i = 0
+        stmts = list(stmts)
+        while i < len(stmts):
+            st = stmts[i]
+            nxt = stmts[i + 1] if i + 1 < len(stmts) else None
+            if isinstance(st, ast.Assign) and len(st.targets) == 1 and isinstance(st.targets[0], ast.Name) and nxt is not None:
+                x = st.targets[0].id
+                holder, field = head(nxt)
+                if holder is not None and x not in params and stores.get(x) == 1 and loads.get(x) == 1 \
+                        and reach(getattr(holder, field), x) == "found":
+                    setattr(holder, field, Put(x, st.value).visit(getattr(holder, field)))
+                    stmts = stmts[:i] + stmts[i + 1:]
+                    continue
+            for fld in ("body", "orelse", "finalbody"):
+                sub = getattr(st, fld, None)
+                if isinstance(sub, list) and sub and isinstance(sub[0], ast.stmt):
+                    setattr(st, fld, fw(sub))
+            if isinstance(st, ast.Try):
+                for h in st.handlers:
+                    h.body = fw(h.body)
+            out.append(st)
+            i += 1
+        return out
+    f.body = fw(f.body)
+    return ast.fix_missing_locations(f)
+
+
+_e1_done = set()
+
+
+def accept_equivalent_functions(mod, rel, log):
+    """(E1): substitute the reference text for functions whose canonical forms coincide after pure-prefix forwarding"""
+    if rel in _e1_done:
+        return
+    _e1_done.add(rel)
+    from translate import normalize as N
+    ref = N.reference_module(rel)
+    if ref is None:
+        return
+    cur_f, ref_f = N._functions(mod), N._functions(ref)
+    for q, (lst, idx, fn) in cur_f.items():
+        if q not in ref_f:
+            continue
+        rfn = ref_f[q][2]
+        if ast.dump(fn) == ast.dump(rfn):
+            continue
+        if ast.dump(fn.args) != ast.dump(rfn.args) or [ast.dump(d) for d in fn.decorator_list] != [ast.dump(d) for d in rfn.decorator_list]:
+            continue
+        a, b = N.canon_function(_pure_prefix_forward(fn)), N.canon_function(_pure_prefix_forward(rfn))
+        if a is not None and a == b:
+            lst[idx] = copy.deepcopy(rfn)
+            log.append("(* g_eventual E1: %s.%s is equivalent to its reference version; reference text used *)" % (rel, q))
+
+
+# ------------------------------------------------------------------------------------------------ (E2)
+def module_state_tuple(mod, name, consts, user_fn):
+    """the elements of NAME = (A, B, ..) under the side conditions of (E2), else None"""
+    tops = [st for st in mod.body if isinstance(st, ast.Assign) and any(isinstance(t, ast.Name) and t.id == name for t in st.targets)]
+    nstores = 0
+    for n in ast.walk(mod):
+        if isinstance(n, ast.Name) and n.id == name and not isinstance(n.ctx, ast.Load):
+            nstores += 1
+        if isinstance(n, (ast.Global, ast.Nonlocal)) and name in n.names:
+            return None
+        if isinstance(n, ast.arg) and n.arg == name:
+            return None
+        if isinstance(n, (ast.Import, ast.ImportFrom)) and any((a.asname or a.name) == name for a in n.names):
+            return None
+    if len(tops) != 1 or nstores != 1 or len(tops[0].targets) != 1:
+        return None
+    v = tops[0].value
+    if not isinstance(v, (ast.Tuple, ast.List)):
+        return None
+    pos = mod.body.index(tops[0])
+    for e in v.elts:
+        if not (isinstance(e, ast.Name) and e.id in consts):
+            return None
+        # the constant is bound once, at top level, before NAME
+        cst = [k for k, st in enumerate(mod.body) if isinstance(st, ast.Assign) and e.id in names_stored(st)]
+        cnt = sum(1 for n in ast.walk(mod) if isinstance(n, ast.Name) and n.id == e.id and not isinstance(n.ctx, ast.Load))
+        if len(cst) != 1 or cnt != 1 or cst[0] > pos:
+            return None
+    return list(v.elts)
+
+
+def names_stored(st):
+    return {n.id for t in st.targets for n in ast.walk(t) if isinstance(n, ast.Name)}
 
 
 def is_self_attr(n, attr=None):
@@ -63,13 +242,25 @@ def iter_order(node, name_pred, what):
     raise U("%s: loop iterates over %s" % (what, ast.unparse(it)))
 
 
+_cur_mod = [None]
+
+
 def states_tuple(test, consts, what):
-    """`self._state in (A, B)` -> [values]"""
+    """`self._state in (A, B)` (or `in NAME`, see (E2)) -> [values]"""
     if not (isinstance(test, ast.Compare) and len(test.ops) == 1 and isinstance(test.ops[0], ast.In)
-            and is_self_attr(test.left, "_state") and isinstance(test.comparators[0], (ast.Tuple, ast.List))):
+            and is_self_attr(test.left, "_state")):
+        raise U("%s: unexpected state test %s" % (what, ast.unparse(test)))
+    rhs = test.comparators[0]
+    if isinstance(rhs, (ast.Tuple, ast.List)):
+        elts = rhs.elts
+    elif isinstance(rhs, ast.Name) and _cur_mod[0] is not None:
+        elts = module_state_tuple(_cur_mod[0], rhs.id, consts, None)
+        if elts is None:
+            raise U("%s: state test against %s, which is not a once-bound module-level tuple of state constants" % (what, rhs.id))
+    else:
         raise U("%s: unexpected state test %s" % (what, ast.unparse(test)))
     out = []
-    for e in test.comparators[0].elts:
+    for e in elts:
         if not (isinstance(e, ast.Name) and e.id in consts):
             raise U("%s: unexpected state %s" % (what, ast.unparse(e)))
         out.append(consts[e.id])
@@ -78,6 +269,7 @@ def states_tuple(test, consts, what):
 
 def gen_eventual(out):
     mod = P.load("eventual.py")
+    accept_equivalent_functions(mod, "eventual.py", NOTES)
     P.find_class(mod, "_SimpleCallQueue")
     # ---- append
     ap = P.find_def(mod, "_SimpleCallQueue.append")
@@ -242,6 +434,8 @@ def gen_eventual(out):
 
 def gen_promise(out):
     mod = P.load("promise.py")
+    accept_equivalent_functions(mod, "promise.py", NOTES)
+    _cur_mod[0] = mod
     names = ["EVENTUAL", "CHAINED", "NEAR", "BROKEN"]
     consts = P.module_consts(mod, names)
     for k in names:
@@ -270,9 +464,20 @@ def gen_promise(out):
         raise U("_break: the state statement is no longer last")
     out.append("Inductive stmtkind := Assign | Compare.")
     out.append("Definition pr_break_state_stmt : stmtkind := %s.   (* `%s` at the end of _break *)" % (sets[0][0], ast.unparse(last)))
-    src = [ast.unparse(s) for s in stmts_no_doc(br)]
-    want_guard = "if self._state == BROKEN:\n    raise UsageError('Broken Promises may not be re-broken')"
     want_deliver = "if self._state in (EVENTUAL, CHAINED):\n    self._deliver_queued_messages()"
+
+    def break_stmt_text(st):
+        # (E3) the delivering guard is recognised by meaning
+        if isinstance(st, ast.If) and not st.orelse and [ast.unparse(x) for x in st.body] == ["self._deliver_queued_messages()"]:
+            try:
+                vals = states_tuple(st.test, consts, "_break")
+            except U:
+                return ast.unparse(st)
+            if sorted(vals) == sorted([consts["EVENTUAL"], consts["CHAINED"]]) and len(vals) == 2:
+                return want_deliver
+        return ast.unparse(st)
+    src = [break_stmt_text(s) for s in stmts_no_doc(br)]
+    want_guard = "if self._state == BROKEN:\n    raise UsageError('Broken Promises may not be re-broken')"
     if "self._target = failure" not in src or want_deliver not in src:
         raise U("_break no longer stores the failure and delivers the queued messages")
     if not (src.index("self._target = failure") < src.index(want_deliver) < len(src) - 1):
@@ -387,6 +592,7 @@ def gen_promise(out):
 
 def gen_observer(out):
     mod = P.load("observer.py")
+    accept_equivalent_functions(mod, "observer.py", NOTES)
     fr = P.find_def(mod, "OneShotObserverList.fire")
     src = [ast.unparse(s) for s in stmts_no_doc(fr)]
     want = ["assert not self._fired", "self._fired = True", "self._result = result",
@@ -406,9 +612,16 @@ def gen_observer(out):
     out.append("Definition ob_when_fired_is_eventual : bool := true.   (* fired -> eventual.fireEventually(self._result) *)")
 
 
+NOTES = []
+
+
 def generate():
+    del NOTES[:]
+    _e1_done.clear()
     out = [P.PRELUDE % dict(src="eventual.py, promise.py, observer.py")]
     gen_eventual(out)
     gen_promise(out)
     gen_observer(out)
+    for n in NOTES:
+        print("g_eventual:", n)
     return {"EventualGen.v": "\n\n".join(out) + "\n"}
